@@ -38,6 +38,8 @@ pub open spec fn st_funds_eq(a: State, b: State) -> bool {
         old(rt).validated@.is_none(),
     ensures
         st_funds_eq(*old(state), *final(state)),
+        // of the runtime only the "caller validated" flag moves
+        *final(rt) == (Rt { validated: final(rt).validated, ..*old(rt) }),
         /*C11*/ r.is_ok() ==> final(rt).validated@.is_some() && (old(rt).msg.caller == info_of(*old(state))->Some_0.owner || info_of(*old(state))->Some_0.pending_owner_address == Some(old(rt).msg.caller)),
         r.is_ok() ==> info_of(*old(state)).is_some() && info_of(*final(state)).is_some() && ({
             let i0 = info_of(*old(state))->Some_0;
@@ -61,6 +63,28 @@ pub open spec fn st_funds_eq(a: State, b: State) -> bool {
             &&& i1.beneficiary_term == i0.beneficiary_term && info_static_eq(i0, i1)
         }),
         r.is_err() ==> *final(state) == *old(state),
+//@ end
+
+// the whole method: the successor must be named by an ID address; state changes only through the closure above
+//@ item actors/miner/src/types.rs ChangeOwnerAddressParams
+//@ include prelude/address_protocol.rs
+//@ fn actors/miner/src/lib.rs Actor::change_owner_address free tx0="State;owner_tx0;&mut __vx_st, rt, new_address" ret=res
+    requires !old(rt).in_tx@, old(rt).validated@.is_none(), old(rt).tx_log@.len() == 0,
+    ensures
+        res.is_ok() ==> params.new_owner.proto == 0,
+        res.is_ok() ==> final(rt).tx_log@.len() == 1 && ({
+            let s0 = rt_state::<State>(old(rt).state_id@);
+            let s1 = rt_state::<State>(final(rt).state_id@);
+            let caller = old(rt).msg.caller;
+            &&& info_of(s0).is_some() && info_of(s1).is_some()
+            &&& (caller == info_of(s0)->Some_0.owner || info_of(s0)->Some_0.pending_owner_address == Some(caller))
+            // the owner changes only when the pending successor itself confirms exactly the pending address
+            &&& (info_of(s1)->Some_0.owner != info_of(s0)->Some_0.owner ==> info_of(s0)->Some_0.pending_owner_address == Some(caller)
+                    && params.new_owner == caller && info_of(s1)->Some_0.owner == caller)
+            &&& st_funds_eq(s0, s1)
+        }),
+        /*C11*/ res.is_ok() ==> final(rt).validated@.is_some(),
+        res.is_err() ==> final(rt).state_id == old(rt).state_id && final(rt).sends == old(rt).sends,
 //@ end
 
 // ======================= worker key: requested by the owner, effective only after the security delay =======================
